@@ -19,6 +19,7 @@ import Sourcer.Proofs.Rename
 import Sourcer.Proofs.LengthenSkip
 import Sourcer.Proofs.Bridge
 import Sourcer.Proofs.EnvSubst
+import Sourcer.Proofs.Chain
 /-
   Property theorems (statements only; proofs are one-liners over Sourcer/Proofs/*).
   Every theorem is followed by an `example` showing its hypotheses are met by a concrete,
@@ -999,6 +1000,47 @@ theorem C13_super (levels : List (List String)) (i : Nat) (n : String) :
 example : lookup (chainCtx [["T", "start"], ["R"], ["start", "R", "S"]]) "R" = some (1, 0) := by decide
 example : lookup (chainCtx [["T", "start"], ["R"], ["start", "R", "S"]]) "S" = some (2, 2) := by decide
 example : lookup (chainCtx ([["T", "start"], ["R"], ["start", "R", "S"]].drop 2)) "R" = some (0, 1) := by decide
+
+/-- **C13 (the meaning of a chain).**  `Chain.chainProg` is the program the generated modules of a chain
+    `… extends … extends …` amount to when the parse is entered through level 0: every definition is a
+    rule of its own, plain references go through the entry grammar's context table (the nearest
+    definition from level 0 up), `super.k` at level `l` through the parent context of the module that
+    contains it (the nearest definition from level `l + 1` up).  `Chain.flatProg` is the single
+    grammar the correspondence check compiles as its reference (names = nearest definitions, private
+    copies for the targets of `super`).  They mean the same, for every expression written at any level. -/
+theorem C13_flattening (C : Chain.Chain) (hN : 0 < C.N) (base : Program) (inp : List Nat) (l fuel : Nat)
+    (e : Expr) (p : Nat) :
+    peg (Chain.flatProg C base) inp fuel (rerefExpr (Chain.conv C l) e) p
+      = peg (Chain.chainProg C base) inp fuel (rerefExpr (Chain.resolveRef C l) e) p :=
+  Chain.flat_means_chain C hN base inp l fuel e p
+
+/-- the rule `k` of the flattened grammar is the entry grammar's `k` -/
+theorem C13_flattened_name (C : Chain.Chain) (hN : 0 < C.N) (base : Program) (inp : List Nat) (k : Nat)
+    (hk : k < C.N) (fuel p : Nat) :
+    peg (Chain.flatProg C base) inp fuel (.ref k) p
+      = peg (Chain.chainProg C base) inp fuel (.ref (Chain.resolveRef C 0 k)) p :=
+  Chain.flat_name_means_entry C hN base inp k hk fuel p
+
+/-- The meaning of a program does not depend on how its rules are numbered, ordered or duplicated
+    (used for C13; it is also what makes the context table of a named grammar - C11 - and the
+    renaming of rules - C20 - harmless). -/
+theorem C13_rule_numbering_is_immaterial (g : Nat → Nat) (P₁ P₂ : Program) (h : RuleSim g P₁ P₂)
+    (inp : List Nat) (fuel : Nat) (e : Expr) (p : Nat) :
+    peg P₂ inp fuel (rerefExpr g e) p = peg P₁ inp fuel e p :=
+  peg_reref g P₁ P₂ h inp fuel e p
+
+-- non-vacuity: A: `R = "a"`, `S = R`; B extends A: `R = "b" | super.R` (names R = 0, S = 1; N = 2); entered through B,
+-- the inherited `S` reads `b` and `a`; the flattened grammar does the same
+example :
+    let A : Chain.Level := fun k => if k = 0 then some (.str [97] false) else if k = 1 then some (.ref 0) else none
+    let B : Chain.Level := fun k => if k = 0 then some (.choice [.str [98] false, .ref 2]) else none
+    let C : Chain.Chain := ⟨2, [B, A]⟩
+    let base : Program := { rules := [], ignored := none, matcher := fun _ _ _ => none, bytesMode := false }
+    Chain.resolveRef C 0 1 = 3 ∧ Chain.resolveRef C 0 0 = 0 ∧ Chain.resolveRef C 0 2 = 2 ∧
+    peg (Chain.chainProg C base) [98] 6 (.ref 3) 0 = some (.ok (.str [98]) 1) ∧
+    peg (Chain.chainProg C base) [97] 6 (.ref 3) 0 = some (.ok (.str [97]) 1) ∧
+    peg (Chain.flatProg C base) [97] 6 (.ref 1) 0 = some (.ok (.str [97]) 1) := by
+  refine ⟨by rfl, by rfl, by rfl, by rfl, by rfl, by rfl⟩
 
 end C13
 
